@@ -1,6 +1,7 @@
 //! Resting place for [OgreArc<>]
 
 use super::types::BoundedOgreAllocator;
+#[cfg(not(feature = "verif"))]
 use std::{
     sync::atomic::{
             self,
@@ -12,6 +13,8 @@ use std::{
     marker::PhantomData,
     ptr::NonNull,
 };
+#[cfg(feature = "verif")]
+use {crate::verif::atomic::AtomicU32, std::{sync::atomic::{self, Ordering::{Acquire, Relaxed, Release}}, ops::{Deref, DerefMut}, fmt::{Debug, Display, Formatter}, marker::PhantomData, ptr::NonNull}};
 use std::borrow::Borrow;
 
 /// Wrapper type for data providing an atomic reference counter for dropping control, similar to `Arc`,
